@@ -16,7 +16,7 @@ Inductive case :=
 Definition ids_of (p : pool) : list N := sort_n (map t_id p).
 
 (** known findings (codes of known_findings/C22.json): narrow signatures of an
-    admitted submission that is not acceptable *)
+    accepted submission that is not acceptable *)
 Definition kf_code (c : config) (p : pool) (s : sub) : N :=
   match txs_of s with
   | None => 0%N
